@@ -4,14 +4,22 @@ An obligation is  hyps |- goal.  It is discharged when  hyps /\\ not goal  is
 unsat.  sat -> refuted (with a model restricted to the obligation's witness
 terms), unknown/timeout -> undecided.  Nothing else is ever mapped to
 "refuted".
+
+Portfolio: z3 (in process) with a short first slice; what it leaves open goes
+to `z3-new` and `cvc5` CLIs run side by side for the full budget, first decisive
+answer wins.  cvc5 is only trusted for `unsat` (a refutation needs z3's model).
+Opposite decisive answers from the two solvers are a checker error.
 """
 import multiprocessing as mp
 import os
+import re
 import subprocess
 import tempfile
 import time
 
 import z3
+
+FIRST_SLICE_S = 6
 
 
 class Ob:
@@ -36,6 +44,19 @@ class Ob:
         return s.to_smt2()
 
 
+def _model_dict(m):
+    wit = {}
+    for d in m.decls():
+        nm = d.name()
+        if nm.startswith('wit!'):
+            v = m[d]
+            try:
+                wit[nm[4:]] = v.as_long() if z3.is_bv_value(v) or z3.is_int_value(v) else str(v)
+            except Exception:
+                wit[nm[4:]] = str(v)
+    return wit
+
+
 def _solve_z3(smt2, timeout_ms, seed=0):
     ctx = z3.Context()
     s = z3.Solver(ctx=ctx)
@@ -50,17 +71,7 @@ def _solve_z3(smt2, timeout_ms, seed=0):
     dt = time.time() - t
     out = {'time': dt, 'backend': 'z3-' + z3.get_version_string()}
     if r == z3.sat:
-        m = s.model()
-        wit = {}
-        for d in m.decls():
-            nm = d.name()
-            if nm.startswith('wit!'):
-                v = m[d]
-                try:
-                    wit[nm[4:]] = v.as_long() if z3.is_bv_value(v) or z3.is_int_value(v) else str(v)
-                except Exception:
-                    wit[nm[4:]] = str(v)
-        out['model'] = wit
+        out['model'] = _model_dict(s.model())
         return 'sat', out
     if r == z3.unsat:
         return 'unsat', out
@@ -68,32 +79,84 @@ def _solve_z3(smt2, timeout_ms, seed=0):
     return 'unknown', out
 
 
-def _solve_cvc5(smt2, timeout_ms):
-    with tempfile.NamedTemporaryFile('w', suffix='.smt2', delete=False) as f:
-        f.write("(set-logic ALL)\n" + smt2)
-        path = f.name
-    t = time.time()
+def _race(smt2, timeout_s):
+    """z3-new and cvc5 CLIs side by side; first decisive answer wins"""
+    d = tempfile.mkdtemp(prefix='vc-')
+    p1 = os.path.join(d, 'q.smt2')
+    wits = re.findall(r'\(declare-fun (wit![^ ]+) ', smt2)
+    body = smt2.replace('(check-sat)', '')
+    with open(p1, 'w') as f:
+        f.write(body + "\n(check-sat)\n")
+        if wits:
+            f.write("(get-value (%s))\n" % " ".join('|%s|' % w if not w.startswith('|') else w for w in wits))
+    p2 = os.path.join(d, 'c.smt2')
+    with open(p2, 'w') as f:
+        f.write("(set-logic ALL)\n" + body + "\n(check-sat)\n")
+    t0 = time.time()
+    procs = {
+        'z3': subprocess.Popen(['z3-new', '-smt2', '-T:%d' % int(timeout_s), p1], stdout=subprocess.PIPE,
+                               stderr=subprocess.DEVNULL, text=True),
+        'cvc5': subprocess.Popen(['/usr/bin/cvc5', '--tlimit=%d' % int(timeout_s * 1000), '--strings-exp', p2],
+                                 stdout=subprocess.PIPE, stderr=subprocess.DEVNULL, text=True),
+    }
+    answers = {}
     try:
-        p = subprocess.run(['/usr/bin/cvc5', '--tlimit=%d' % timeout_ms, '--strings-exp', path],
-                           capture_output=True, text=True, timeout=timeout_ms / 1000 + 5)
-        res = p.stdout.strip().split('\n')[0] if p.stdout.strip() else 'unknown'
-    except subprocess.TimeoutExpired:
-        res = 'unknown'
+        while procs and time.time() - t0 < timeout_s + 10:
+            for nm in list(procs):
+                p = procs[nm]
+                if p.poll() is not None:
+                    out = p.stdout.read()
+                    first = out.strip().split('\n')[0].strip() if out.strip() else 'unknown'
+                    answers[nm] = (first if first in ('sat', 'unsat') else 'unknown', out)
+                    del procs[nm]
+            if answers.get('z3', ('', ''))[0] in ('sat', 'unsat') or answers.get('cvc5', ('', ''))[0] == 'unsat':
+                break
+            time.sleep(0.05)
     finally:
-        os.unlink(path)
-    return (res if res in ('sat', 'unsat') else 'unknown'), {'time': time.time() - t, 'backend': 'cvc5-1.0.3'}
+        for p in procs.values():
+            p.kill()
+        for f in (p1, p2):
+            try:
+                os.unlink(f)
+            except OSError:
+                pass
+        os.rmdir(d)
+    dt = time.time() - t0
+    za, ca = answers.get('z3', ('unknown', ''))[0], answers.get('cvc5', ('unknown', ''))[0]
+    if {za, ca} == {'sat', 'unsat'}:
+        return 'error', {'msg': 'solvers disagree: z3=%s cvc5=%s' % (za, ca), 'time': dt}
+    if za == 'unsat':
+        return 'unsat', {'time': dt, 'backend': 'z3-new-cli'}
+    if ca == 'unsat':
+        return 'unsat', {'time': dt, 'backend': 'cvc5-1.0.3'}
+    if za == 'sat':
+        model = {}
+        for m in re.finditer(r'\(\|?(wit![^ |)]+)\|? (#x[0-9a-fA-F]+|#b[01]+|\(- \d+\)|\d+|true|false)\)', answers['z3'][1]):
+            v = m.group(2)
+            if v.startswith('#x'):
+                val = int(v[2:], 16)
+            elif v.startswith('#b'):
+                val = int(v[2:], 2)
+            elif v.startswith('(-'):
+                val = -int(v[3:-1])
+            elif v in ('true', 'false'):
+                val = v
+            else:
+                val = int(v)
+            model[m.group(1)[4:]] = val
+        return 'sat', {'time': dt, 'backend': 'z3-new-cli', 'model': model}
+    return 'unknown', {'time': dt, 'backend': 'z3+cvc5', 'reason': 'budget exhausted (cvc5: %s)' % ca}
 
 
 def _worker(job):
     idx, smt2, timeout_ms, use_cvc5 = job
     try:
-        r, info = _solve_z3(smt2, timeout_ms)
-        if r == 'unknown' and use_cvc5:
-            r2, info2 = _solve_cvc5(smt2, timeout_ms)
-            if r2 == 'unsat':
-                # cvc5 decides what z3 left open (never lets cvc5 *refute*: no model to replay)
-                info2['time'] += info.get('time', 0)
-                return idx, r2, info2
+        first = min(timeout_ms, FIRST_SLICE_S * 1000)
+        r, info = _solve_z3(smt2, first)
+        if r == 'unknown' and timeout_ms > first:
+            r2, info2 = _race(smt2, (timeout_ms - first) / 1000.0)
+            info2['time'] = info2.get('time', 0) + info.get('time', 0)
+            return idx, r2, info2
         return idx, r, info
     except Exception as e:   # never a verdict
         return idx, 'error', {'msg': repr(e)[:300]}
